@@ -219,6 +219,16 @@ fn decompress_to_vec_inner(
         // decompressed data for matches.
         let (status, in_consumed, out_consumed) =
             decompress(&mut decomp, input, &mut ret, out_pos, flags);
+        #[cfg(all(miniz_oxide_verif, feature = "std"))]
+        crate::verif_vec_trace::push([
+            1,
+            input.len() as i64,
+            ret.len() as i64,
+            out_pos as i64,
+            status as i64,
+            in_consumed as i64,
+            out_consumed as i64,
+        ]);
         out_pos += out_consumed;
 
         match status {
